@@ -12,6 +12,7 @@ CONSTANTS GF, GA, GB,          \* fine level; levels of region A and region B
           XsA, YsA, XsB, YsB,      \* candidate corner coordinates of the first (outer) loop, in cells of the own level
           HXsA, HYsA, HXsB, HYsB,  \* candidate corner coordinates of the further loops (holes, islands, second shells)
           GlueXs,                  \* extents (cells of A's level) of two-face loops on either side of the common face side; {} = none
+          SpikeSides, SpikePos, SpikeLens, \* rectangles of A with a thin spike (1 fine cell wide): sides 0..3, fine positions, fine lengths; {} = none
           ThinMod, ThinRem,        \* keep the pairs whose hash is ThinRem modulo ThinMod (seeded sub-sampling)
           KindsA, KindsB,      \* subsets of 0..4 (0 rectangle, 1..4 L-shapes)
           PitchA, PitchB,      \* vertex spacings in cells of the own level (0 = corners only)
@@ -53,7 +54,14 @@ GluePolys ==
             m \in {x \in GlueXs : 0 < x /\ x <= n}, w \in {x \in GlueXs : 0 < x /\ x <= n},
             y0 \in YsA, y1 \in YsA, pt \in PitchA}
 IsGlue(P) == P[1].glue = 1
+\* rectangles with a spike (see Relations!SpikeVerts): <<rectangle, spike>>, glue = 10 + side
+SpikePolys ==
+    {<<[r EXCEPT !.glue = 10 + side], [SpikeRect(r, side, pos, len, 1) EXCEPT !.glue = 20 + side]>> :
+        r \in {x \in SA : x.nc = 0}, side \in SpikeSides, pos \in SpikePos, len \in SpikeLens}
+IsSpike(P) == P[1].glue >= 10 /\ P[1].glue < 20
+Merged(P) == IsGlue(P) \/ IsSpike(P)
 PolysA == PolysOf(SA, HA, MaxLoopsA) \cup {P \in GluePolys : \A k \in 1..2 : WellFormed(P[k], GF) /\ P[1].Y0 < P[1].Y1}
+          \cup {P \in SpikePolys : WellFormed(P[2], GF) /\ SpikeOK(P[1], P[2], P[1].glue - 10)}
 PolysB == PolysOf(SB, HB, MaxLoopsB)
 PHash(P) == SumFn([k \in 1..Len(P) |-> (LKey(P[k]) + P[k].m + 7 * P[k].nc) % 10007])
 
@@ -79,7 +87,9 @@ MkPair(P, Q, fp) ==
           <<RegionOn(u, p0), RegionOn(u, PolyComplement(p0, u)), RegionOn(u, q0), RegionOn(u, PolyComplement(q0, u))>>,
           <<TopIdx(p0, u), TopIdx(q0, u)>>,
           \* the single boundary loop of a two-face region
-          IF IsGlue(p0) /\ p0[2].f \in Faces THEN GlueVerts(p0[1], Verts(p0[1], vsOn(p0[1].f)), p0[2], Verts(p0[2], vsOn(p0[2].f)), Side(GF)) ELSE <<>> >>
+          IF IsGlue(p0) /\ p0[2].f \in Faces THEN GlueVerts(p0[1], Verts(p0[1], vsOn(p0[1].f)), p0[2], Verts(p0[2], vsOn(p0[2].f)), Side(GF))
+          ELSE IF IsSpike(p0) THEN SpikeVerts(Verts(p0[1], vsOn(p0[1].f)), Verts(p0[2], vsOn(p0[2].f)), SpikeFeet(p0[2], p0[1].glue - 10))
+          ELSE <<>> >>
 \* initial states <<P, chunk>>: the work is split into 4 chunks of Q per P (parallelism)
 InitPair == t \in {<<P, ch>> : P \in PolysA, ch \in 0..3}
 NextPair == /\ Len(t) = 2
@@ -120,6 +130,15 @@ PairTheorems ==
         /\ \A k \in 1..Len(Scene) : WellFormed(Scene[k], GF)
         \* the boundary of a two-face region: every vertex of the two halves except those strictly
         \* inside the common side, each once
+        \* the boundary of a rectangle with a spike: the vertices of both parts except those strictly
+        \* between the spike's feet, each once
+        /\ (IsSpike(P0) =>
+              LET g == t[8]
+                  sp == P0[2]
+                  between(p) == IF P0[1].glue - 10 \in {0, 2} THEN p[1] = (IF P0[1].glue = 10 THEN sp.X0 ELSE sp.X1) /\ sp.Y0 < p[2] /\ p[2] < sp.Y1
+                                ELSE p[2] = (IF P0[1].glue = 11 THEN sp.Y0 ELSE sp.Y1) /\ sp.X0 < p[1] /\ p[1] < sp.X1
+              IN  /\ Cardinality(Range(g)) = Len(g) /\ Len(g) <= 250
+                  /\ Range(g) = {p \in Range(SceneVerts[1]) \cup Range(SceneVerts[2]) : ~between(p)})
         /\ (IsGlue(P0) =>
               LET g == t[8]
                   c(k) == IF k = 1 THEN 0 ELSE Side(GF)      \* coordinate of the common side in half k
@@ -152,8 +171,8 @@ EmitPair ==
     IF FullPair /\ ValidPair
     THEN PrintT(<<"CASE", ToJson(
                [op |-> "c07pair", fa |-> P0[1].f, fb |-> Q0[1].f, gf |-> GF, ga |-> GA, gb |-> GB,
-                a |-> [loops |-> IF IsGlue(P0) THEN <<t[8]>> ELSE t[3], top |-> t[7][1] - 1],
-                twoface |-> IsGlue(P0),
+                a |-> [loops |-> IF Merged(P0) THEN <<t[8]>> ELSE t[3], top |-> t[7][1] - 1],
+                twoface |-> IsGlue(P0), spike |-> IsSpike(P0),
                 b |-> [loops |-> t[4], top |-> t[7][2] - 1],
                 touch |-> PolysTouch(P0, Q0),
                 want |-> [c |-> [s \in 1..2 |-> [u \in 1..2 |-> Subset(RY[u], RX[s])]],
@@ -240,6 +259,8 @@ TraceLawTable(e) ==
      \* single-loop polygons answer like loops
      poly1 |-> e.pc = e.c /\ e.pd = e.d /\ e.pi = e.i,
      certNested   |-> (e.cert = "nested" => e.c[1][1] /\ e.i[1][1] /\ ~e.i[2][1]),
+     \* a loop well inside another one becomes its hole when a polygon is assembled from the two
+     certNestedHole |-> (e.cert = "nested" => e.hole),
      certDisjoint |-> (e.cert = "disjoint" => ~e.i[1][1] /\ ~e.c[1][1] /\ ~e.d[1][1] /\ e.c[2][1])]
 TraceFailing(e) == {n \in DOMAIN TraceLawTable(e) : ~TraceLawTable(e)[n]}
 TraceLaws ==
